@@ -105,7 +105,7 @@ Emit(e, c) ==
     /\ dm' = IF ro /\ ev.op \in R!Writes THEN dm ELSE D!DStep(dm, ev)
     /\ lm' = L!LStep(lm, ev)
     /\ ok' = /\ ok
-             /\ IF ro THEN R!ROk([kind |-> "fs", s |-> dm], ev) ELSE D!DOk(dm, ev)
+             /\ IF ro THEN R!ROk([kind |-> "fs", s |-> dm, damaged |-> FALSE], ev) ELSE D!DOk(dm, ev)
              /\ HasCache => L!LOk(lm, ev)
     /\ UNCHANGED ro
 
